@@ -224,6 +224,14 @@ def run_shard(shard, tier) -> Stats:
                 st.ev(("unk", k, len(lst), lst[0] == run[0]), "agree" if not prob else "differ", True)
                 if k in (5, 6, 7, 12) and lst is not None and len(lst) <= 24:
                     check_wire(st, lst, "unknown-run")
+        # ... and runs of 1..10 zero-size records (known and unknown ids mixed)
+        for k in range(1, 11):
+            run = [cap_record([0x0012, 0x0214, 0x0777, 0x0212, 0x0226][i % 5]) for i in range(k)]
+            for lst in (run + known, known[:2] + run + known[2:], known + run, run + known[:1], run + [cap_record(0x0212, 1)]):
+                prob = check_list(st, lst, "zero-size-run")
+                st.ev(("zero", k, len(lst), lst[0] == run[0]), "agree" if not prob else "differ", True)
+                if k in (2, 3, 4, 9):
+                    check_wire(st, lst, "zero-size-run")
     elif kind == "attr-pairs":
         # attribute-level independence: what one record contributes to the public capability attributes does not depend
         # on a record of a different id next to it
